@@ -244,3 +244,11 @@ Definition fill_above (f : fillv) : Qc := match f with FScalar c => c | FPair _ 
 Definition denotes (w v : list Qc) (f : fillv) (x y : Qc) : Prop :=
   (x < wmin w /\ y = fill_below f) \/ (wmax w < x /\ y = fill_above f) \/
   (wmin w <= x /\ x <= wmax w /\ on_interpolant w v x y).
+(* rescaling of values by a constant (what Spectrum.to does to a density value unit) *)
+Definition xscale (k : Qc) (x : xval) : xval := match x with XQ q => XQ (q * k) | other => other end.
+Definition fscale (k : Qc) (f : fillv) : fillv :=
+  match f with FScalar c => FScalar (c * k) | FPair lo hi => FPair (lo * k) (hi * k) end.
+(* a result with a density value unit re-expressed in another wavelength unit: grid times the unit
+   factor, values divided by it *)
+Definition rto_density (r : rspectrum) (u : wunit) : rspectrum :=
+  mkR (map (fun x => x * ufac (rwu r) u) (rwave r)) (map (xscale (/ ufac (rwu r) u)) (rvalue r)) u (rvu r).
